@@ -44,6 +44,14 @@ def base_snapshot(svc, kind='custom'):
 
 
 def execute(svc, req, app=None):
+    if req['m'] == 'RESTART':
+        return svc.restart()
+    if req['m'] == 'SQL':
+        return svc.raw_sql(req['b'])
+    if req['m'] == 'RESTORE':
+        svc.restore(getattr(svc, req['b']))
+        from pv.app import Resp
+        return Resp(200, {}, b'')
     return svc.request(req['m'], req['p'], version=req.get('v'),
                        body=req.get('b'), raw_body=req.get('raw'),
                        token=req.get('tok', 'admin'), roles=req.get('roles'),
@@ -58,7 +66,7 @@ class Profile(object):
 
     def __init__(self, name, prop, ops, oracles, nontrivial, steps=30,
                  version_lo=0, boundaries=(), defect_rate=3, base='custom',
-                 init=None, after_step=None):
+                 init=None, after_step=None, builders=None):
         self.name = name
         self.prop = prop
         self.ops = []
@@ -73,6 +81,7 @@ class Profile(object):
         self.base = base
         self.init = init
         self.after_step = after_step
+        self.builders = builders or {}
 
 
 DEFECTS = {
@@ -108,6 +117,8 @@ NEEDS_PROVIDER = {'update_rp', 'put_inventories', 'post_inventory',
 
 def build(draw, d, prof, name):
     """Build one request of kind `name` for state d."""
+    if name in prof.builders:
+        return prof.builders[name](draw, d, prof)
     lo = max(prof.version_lo, MIN_VERSION.get(name, 0))
     v = gen.biased_version(draw, lo, 39, prof.boundaries)
     if name in NEEDS_PROVIDER and not d.providers:
